@@ -1,7 +1,7 @@
 (* C02 - an elided amount is inferred as the exact negation of the rest.
    Property theorems only; proofs in Proofs/XactProofs.v.  See Properties_C01.v for the names. *)
 From LedgerV Require Import Base.Prelude Base.Round Model.Amount Model.Xact
-  Proofs.AmountProofs Proofs.XactProofs Proofs.GainLossProofs Gen.SourceGuards.
+  Proofs.AmountProofs Proofs.XactProofs Proofs.GainLossProofs Gen.SourceGuards Model.PostLine Proofs.PostLineProofs.
 Local Open Scope Q_scope.
 
 (* a transaction with exactly one elided amount (index i found by the scan) is completed by
@@ -89,6 +89,58 @@ Theorem only_virtual_postings_leave_the_balance_alone : forall ord cp ps bal ps'
   exchange_posts ord cp ps bal = Ok (ps', bal') -> bal' = bal.
 Proof. exact exchange_posts_nonbalancing_only. Qed.
 Print Assumptions only_virtual_postings_leave_the_balance_alone.
+
+(* when the other postings cancel exactly and a zero amount (or zero cost) in a further commodity sits among them, the
+   balance finalize is left with holds nothing at all: the elided posting then receives a plain zero (ledger used to
+   leave it null and refuse the transaction - F69, repaired in /repo) *)
+Theorem elided_amount_is_zero_when_nothing_is_left : fill_amounts (VBal []) = Ok [amt_of_Z 0].
+Proof. reflexivity. Qed.
+Print Assumptions elided_amount_is_zero_when_nothing_is_left.
+
+Example ex_elided_amount_with_zero_posting :
+  let x q := mkAmt q 0 false (Some [88%Z]) in
+  let y q := mkAmt q 0 false (Some [89%Z]) in
+  let ps := [mkPost [65%Z] PReal (Some (x 5)) None None false false false;
+             mkPost [66%Z] PReal (Some (x (-5))) None None false false false;
+             mkPost [67%Z] PReal (Some (y 0)) None None false false false;
+             mkPost [68%Z] PReal None None None false false false] in
+  finalize false (fun _ => 0%Z) None ps =
+  Ok (Accepted [mkPost [65%Z] PReal (Some (x 5)) None None false false false;
+                mkPost [66%Z] PReal (Some (x (-5))) None None false false false;
+                mkPost [67%Z] PReal (Some (y 0)) None None false false false;
+                mkPost [68%Z] PReal (Some (amt_neg (amt_of_Z 0))) None None true false false]).
+Proof. vm_compute. reflexivity. Qed.
+
+(* the written form of a posting line (Model/PostLine.v transcribes next_element, skip_ws and the account part of
+   parse_post; the driver reads account, kind and the presence of an amount off the written line through it):
+   whatever separates the account from the amount - a tab, two or more spaces, any run of blanks holding a tab - the
+   account found is the written name and the amount text is what follows.  name_ok: no control white space in the
+   name, a space only between two non-blank bytes; sep_ok: blanks only, a tab among them or at least two of them;
+   the amount text starts with a byte that is not white space *)
+Theorem account_and_amount_found_whatever_the_gap : forall a sep rest,
+  name_ok a = true -> sep_ok sep = true -> skip_ws rest = rest ->
+  split_post_line (a ++ sep ++ rest) = (classify_name a, Some rest).
+Proof. exact split_post_line_gap. Qed.
+Print Assumptions account_and_amount_found_whatever_the_gap.
+
+Theorem posting_line_reading_independent_of_the_gap : forall a sep1 sep2 rest,
+  name_ok a = true -> sep_ok sep1 = true -> sep_ok sep2 = true -> skip_ws rest = rest ->
+  split_post_line (a ++ sep1 ++ rest) = split_post_line (a ++ sep2 ++ rest).
+Proof. exact split_post_line_gap_independent. Qed.
+Print Assumptions posting_line_reading_independent_of_the_gap.
+
+Theorem posting_line_without_amount : forall a, name_ok a = true -> split_post_line a = (classify_name a, None).
+Proof. exact split_post_line_bare. Qed.
+Print Assumptions posting_line_without_amount.
+
+Example ex_posting_line_gaps :
+  let a := [69;120;112;58;68;32;79]%Z in
+  name_ok a = true /\ sep_ok [SP; TAB] = true /\ sep_ok [TAB] = true /\ sep_ok [SP; SP; SP] = true /\
+  sep_ok [SP] = false /\
+  split_post_line (a ++ [SP; TAB] ++ [36; 53]%Z) = ((KReal, a), Some [36; 53]%Z) /\
+  split_post_line (a ++ [TAB] ++ [36; 53]%Z) = ((KReal, a), Some [36; 53]%Z) /\
+  split_post_line (a ++ [SP] ++ [36; 53]%Z) = ((KReal, a ++ [SP; 36; 53]%Z), None).
+Proof. exact gap_forms_agree. Qed.
 
 (* the tie to the source by translation: the lines of /repo/src this model transcribes (harness/translators/src_guards.py
    lists them, with the function each is looked for in) are still there, in the same order, in the source as it is NOW -
